@@ -23,7 +23,11 @@ GRID_RE = re.compile(r"^(uspg_abstract|uspg_3d|uspg_4d)(<.*>)?$")
 def declare(rep):
     rep.rule("C20.flatten-form", "every voxel flattening is x + y*nx + z*nx*ny with axis-consistent indices", floor=3)
     rep.rule("C20.flatten-width", "flattening and total voxel count are computed in size_t, not in 32-bit arithmetic", floor=4)
-    rep.rule("C20.quantisation", "every coordinate quantisation is floor((coord - min_axis)/voxel_size) of the matching axis", floor=6)
+    rep.rule("C20.quantisation", "every coordinate quantisation is floor((coord - min_axis)/voxel_size) of the matching axis", floor=3)
+    rep.rule("C20.index-within-count", "every quantised coordinate is limited to the last voxel of its axis before it addresses a voxel (the count is ceil(extent/size), "
+             "so floor((max - min)/size) is one past the end whenever the extent is a multiple of the voxel size)", floor=12)
+    rep.rule("C20.free-layer", "the region grid of the polarizer extends at least two voxel sizes beyond the node extrema on every side: its ray marching steps from a "
+             "voxel that holds a node to the next one without a bounds test, and with ceil(extent/size) voxels one voxel of margin leaves no free layer when the extent is a multiple of the voxel size", floor=6)
     rep.rule("C20.update-dimensions", "update_dimensions assigns counts, origin and extent axis-consistently and sizes the storage with nx*ny*nz", floor=2)
     rep.rule("C20.loop-ranges", "get_grid_content visits [0,n) per axis; get_neighborhood visits [i-1 (clamped at 0), i+2 (clamped at n))", floor=2)
 
@@ -43,6 +47,8 @@ def run(rep, prog, tier):
     fns = grid_fns(prog)
     if len(fns) < 10:
         raise AnalysisBroken("grid classes not found (%d functions)" % len(fns))
+    index_within_count(rep, prog)
+    free_layer(rep, prog)
     for fn in fns:
         flatten(rep, prog, fn)
         quantisation(rep, prog, fn)
@@ -367,3 +373,186 @@ def loop_ranges(rep, prog, fn):
         rep.ok("C20.loop-ranges", prog, fn, loops[0], "%s: three nested loops over x, y, z with the expected ranges" % fn["name"])
     else:
         rep.violation("C20.loop-ranges", prog, fn, loops[0], "%s: %s" % (fn["name"], msgs[0][:70]), "%s::%s: %s" % (fn.get("cls"), fn["name"], "; ".join(msgs)))
+
+
+CASTS = ("ImplicitCastExpr", "CXXStaticCastExpr", "CStyleCastExpr", "CXXFunctionalCastExpr", "MaterializeTemporaryExpr", "ParenExpr", "ExprWithCleanups", "ConstantExpr")
+
+
+def _site_axis_prefix(n):
+    """(axis, grid prefix) of a quantisation site from the min field it subtracts: ('x', 'grid_.') / ('x', '')"""
+    for x in walk(n):
+        if x.get("k") == "MemberExpr" and x["ref"].get("dk") == "Field" and x["ref"]["name"] in QUANT_FIELDS:
+            base = x["c"][0] if x.get("c") else None
+            pre = "" if base is None or strip(base).get("k") == "CXXThisExpr" else render(base) + "."
+            return QUANT_FIELDS[x["ref"]["name"]], pre
+    return None, None
+
+
+def _clamp_of(fi, n):
+    """the std::min(...) call that directly limits the value of n (through casts only), with its other argument"""
+    cur = n
+    for p, slot, ch in fi.ancestors(n):
+        if p.get("k") in CASTS:
+            cur = p
+            continue
+        if p.get("k") == "CallExpr" and p.get("callee") == "std::min" and len(call_args(p)) == 2:
+            a, b = call_args(p)
+            other = b if any(x is cur or x is n for x in walk(a)) else a
+            return p, other
+        return p, None
+    return None, None
+
+
+def _is_last_voxel(expr, axis, prefix):
+    e = strip(expr)
+    if e.get("k") != "BinaryOperator" or e.get("op") != "-":
+        return False
+    l, r = strip(e["c"][0]), strip(e["c"][1])
+    if r.get("k") != "IntegerLiteral" or r.get("v") != "1":
+        return False
+    if l.get("k") != "MemberExpr" or l["ref"].get("name") != "nb_voxels_%s_" % axis:
+        return False
+    base = l["c"][0] if l.get("c") else None
+    pre = "" if base is None or strip(base).get("k") == "CXXThisExpr" else render(base) + "."
+    return pre == prefix
+
+
+def index_within_count(rep, prog):
+    """D20: update_dimensions gives an axis ceil((max + eps - min)/size) voxels while coordinates are quantised with
+    floor((p - (min - eps))/size): for p = max both are equal whenever the quotient is an integer. Every quantised coordinate must
+    therefore be limited to nb_voxels - 1 (directly, or as the lower end of a range whose upper end is limited), or be a point
+    that lies strictly inside the upper faces of the grid."""
+    rule = "C20.index-within-count"
+    for fn in prog.repo_functions():
+        if not isinstance(fn.get("body"), dict):
+            continue
+        sites = list(quantisation_sites(fn))
+        if not sites:
+            continue
+        fi = prog.index(fn)
+        clamped_vars = {}      # did -> axis of a variable initialised with a clamped quantisation
+        pending = []
+        for n in sites:
+            axis, prefix = _site_axis_prefix(n)
+            if axis is None:
+                continue       # not a voxel quantisation of a grid with an origin field (reported by C20.quantisation)
+            parent, other = _clamp_of(fi, n)
+            if other is not None:
+                if _is_last_voxel(other, axis, prefix):
+                    rep.ok(rule, prog, fn, n, "min(%s, %snb_voxels_%s_ - 1): limited to the last voxel of axis %s" % (short(n, 60), prefix, axis, axis))
+                    for p, slot, ch in fi.ancestors(parent):
+                        if p.get("k") in CASTS:
+                            continue
+                        if p.get("k") == "Var":
+                            clamped_vars[p["did"]] = (axis, prefix)
+                        break
+                else:
+                    rep.violation(rule, prog, fn, n, "quantised index limited by something else than the last voxel of its axis",
+                                  "%s is limited by %s, expected %snb_voxels_%s_ - 1: a point of the upper face of axis %s of the grid still maps to a voxel index one past the end (or points are folded into the wrong voxel)" % (short(n, 70), render(other), prefix, axis, axis))
+                continue
+            pending.append((n, axis, prefix, parent))
+        for n, axis, prefix, parent in pending:
+            why = None
+            if parent is not None and parent.get("k") == "Var":
+                did = parent["did"]
+                uses = [x for x in walk(fn["body"]) if x.get("k") == "DeclRefExpr" and x["ref"].get("did") == did]
+                # (a) lower end of a range whose upper end is a limited index of the same axis
+                as_lower = []
+                for u in uses:
+                    loop = None
+                    for p, slot, ch in fi.ancestors(u):
+                        if p.get("k") in CASTS:
+                            continue
+                        if p.get("k") == "Var" and any(l.get("k") == "ForStmt" and isinstance(l.get("init"), dict) and any(d is p for d in l["init"].get("decls", [])) for l, _s, _c in fi.ancestors(p)):
+                            loop = next(l for l, _s, _c in fi.ancestors(p) if l.get("k") == "ForStmt")
+                            loopvar = p
+                        break
+                    if loop is None:
+                        as_lower = None
+                        break
+                    cond = strip(loop.get("cond") or {})
+                    okc = False
+                    if cond.get("k") == "BinaryOperator" and cond.get("op") in ("<=", "<"):
+                        l_, r_ = strip(cond["c"][0]), strip(cond["c"][1])
+                        if l_.get("k") == "DeclRefExpr" and l_["ref"].get("did") == loopvar["did"] and r_.get("k") == "DeclRefExpr" and clamped_vars.get(r_["ref"].get("did")) == (axis, prefix):
+                            okc = True
+                            stopname = r_["ref"]["name"]
+                    if not okc:
+                        as_lower = None
+                        break
+                    as_lower.append(stopname)
+                if as_lower:
+                    why = "used only as the first index of the range closed by %s, which is limited to the last voxel of axis %s" % (as_lower[0], axis)
+            if why is None:
+                # (b) coordinate of a mesh node looked up by a contact model: nodes lie aabb_padding_ > 0 inside the upper faces of
+                # the grid (grid bounds = node extrema + padding, C06.padding-dominates; cut-offs <= 0 are rejected by parameter_reader)
+                coord_txt = render(n)
+                cls = fn.get("cls") or ""
+                if re.search(r"\.pos\(\)\.d[xyz]\(\)", coord_txt) and (cls.startswith("contact_") and prefix == "grid_."):
+                    why = "position of a mesh node in a contact look-up: strictly inside the upper faces of the grid by the positive box padding (C06.padding-dominates)"
+            if why:
+                rep.ok(rule, prog, fn, n, why)
+            else:
+                rep.violation(rule, prog, fn, n, "quantised index not limited to the last voxel of its axis",
+                              "%s in %s is used as a voxel index of axis %s without min(..., %snb_voxels_%s_ - 1): the grid has ceil((max + eps - min)/size) voxels per axis, so a point on the upper face of the declared box "
+                              "(which the asserts of the grid accept) gets the index nb_voxels whenever the extent is a multiple of the voxel size - the voxel access is out of bounds" % (short(n, 80), fn["qn"], axis, prefix, axis))
+
+
+def free_layer(rep, prog):
+    rule = "C20.free-layer"
+    try:
+        fn = prog.fn("automatic_polarizer::update_grid_dimensions")
+        ray = prog.fn("automatic_polarizer::get_region_in_contact_with_face")
+    except (KeyError, AnalysisBroken):
+        raise AnalysisBroken("automatic_polarizer::update_grid_dimensions / get_region_in_contact_with_face not found")
+    # is the marching guarded?  indices obtained from get_3d_voxel_index, advanced by a compound assignment, compared with nothing
+    stepped = set()
+    for n in walk(ray["body"]):
+        if n.get("k") == "CompoundAssignOperator" and n.get("op") in ("+=", "-="):
+            l = strip(n["c"][0])
+            if l.get("k") == "DeclRefExpr" and "int" in (l.get("t") or ""):
+                stepped.add(l["ref"].get("did"))
+    guarded = set()
+    for n in walk(ray["body"]):
+        if n.get("k") == "BinaryOperator" and n.get("op") in ("<", "<=", ">", ">=", "==", "!="):
+            for x in walk(n):
+                if x.get("k") == "DeclRefExpr" and x["ref"].get("did") in stepped:
+                    guarded.add(x["ref"]["did"])
+    if not stepped:
+        raise AnalysisBroken("%s: the ray marching no longer advances voxel indices by compound assignment" % prog.loc(ray))
+    unguarded = stepped - guarded
+    ev = S.SymEval(prog, fn)
+    ctor = None
+    for st in fn["body"].get("c", []):
+        cs = [n for n in walk(st) if n.get("k") in ("CXXConstructExpr", "CXXTemporaryObjectExpr") and (n.get("t") or "").startswith("uspg_3d") and len(n.get("c", [])) >= 7]
+        if cs:
+            ctor = cs[0]
+            break
+        try:
+            ev.exec_stmt(st)
+        except S.Decline:
+            ev.havoc(st)
+    if ctor is None:
+        raise AnalysisBroken("%s: construction of the uspg_3d region grid not found" % prog.loc(fn))
+    args = ctor["c"]
+    try:
+        vs = sp.sympify(ev.ev(args[6]))
+        vals = [sp.expand(sp.sympify(ev.ev(a))) for a in args[:6]]
+    except S.Decline as e:
+        raise AnalysisBroken("%s: %s" % (prog.loc(fn, ctor), e))
+    for i, v in enumerate(vals):
+        axis = "xyz"[i % 3]
+        side = "lower" if i < 3 else "upper"
+        if not unguarded:
+            rep.ok(rule, prog, fn, args[i], "%s bound of axis %s: the ray marching tests its indices, no margin needed" % (side, axis))
+            continue
+        c = v.coeff(vs) if vs.is_Symbol else None
+        rest = sp.expand(v - c * vs) if c is not None else None
+        good = c is not None and c.is_number and rest is not None and len(rest.free_symbols) == 1 and rest.is_Symbol and ((i < 3 and c <= -2) or (i >= 3 and c >= 2))
+        if good:
+            rep.ok(rule, prog, fn, args[i], "%s bound of axis %s = node extremum %s %s*voxel size" % (side, axis, "-" if i < 3 else "+", abs(c)))
+        else:
+            rep.violation(rule, prog, fn, args[i], "region grid: %s margin of axis %s is less than two voxels" % (side, axis),
+                          "%s passes %s as the %s bound of axis %s of the region grid (voxel size %s): get_region_in_contact_with_face steps from the voxel of a node to the next voxel without a bounds test "
+                          "(%s), and the grid has ceil(extent/size) voxels, so with less than two voxel sizes of margin the outermost nodes lie in the last layer whenever the extent is a multiple of the voxel size: "
+                          "the ray leaves the grid (assertion / out-of-bounds read of voxel_lst_)" % (fn["qn"], clean(v), side, axis, clean(vs), prog.loc(ray)))
